@@ -143,6 +143,24 @@ func (c *CLI) decide(a Assume, extra func(cond ast.Expr) (bool, bool, bool)) fun
 				return false, true
 			}
 		}
+		// len(flags.f) ⋈ 0 is an emptiness test too
+		if be, ok := cond.(*ast.BinaryExpr); ok {
+			if op, isLen := LenOperand(c.Info, c.Run.Decl, be.X); isLen {
+				if f := c.fieldOfParam(op); f != nil {
+					if tv := c.Info.Types[be.Y]; tv.Value != nil && tv.Value.Kind() == constant.Int {
+						if k, _ := constant.Int64Val(tv.Value); k == 0 && (a[f] == "empty" || a[f] == "nonempty") {
+							empty := a[f] == "empty"
+							switch be.Op {
+							case token.EQL:
+								return empty, !empty
+							case token.NEQ, token.GTR:
+								return !empty, empty
+							}
+						}
+					}
+				}
+			}
+		}
 		if be, ok := cond.(*ast.BinaryExpr); ok && (be.Op == token.EQL || be.Op == token.NEQ) {
 			var f *types.Var
 			var other ast.Expr
